@@ -22,6 +22,9 @@ STUBSETS = {
 STUBSETS['case'] = [
     ('core::unicode::conversions::to_lower', '$P::stubs::st_to_lower'),
     ('core::unicode::unicode_data::lowercase::lookup', '$P::stubs::st_lowercase_lookup'),
+    ('core::unicode::unicode_data::uppercase::lookup', '$P::stubs::st_uppercase_lookup'),
+    ('core::unicode::unicode_data::lt::lookup', '$P::stubs::st_lt_lookup'),
+    ('core::unicode::unicode_data::case_ignorable::lookup', '$P::stubs::st_case_ignorable_lookup'),
 ]
 STUBSETS['width'] = [('precis_profiles::usernames::get_decomposition_mapping', '$P::stubs::st_width')]
 
@@ -68,6 +71,7 @@ STUBSETS['pipe'] = [
     ('is_right_joining', 'sp_right'), ('is_transparent', 'sp_transparent')]]
 STUBSETS['adv'] = [("<core::str::Chars<'_> as core::iter::Iterator>::advance_by", '$P::stubs::s_advance_by')]
 STUBSETS['chars'] = [("<core::str::Chars<'_> as core::iter::Iterator>::next", '$P::stubs::s_chars_next')]
+STUBSETS['count'] = [("<core::str::Chars<'_> as core::iter::Iterator>::count", '$P::stubs::s_chars_count')]
 STUBSETS['pipe'] += STUBSETS['adv'] + STUBSETS['chars']
 STUBSETS['pipe4'] = [(t, r.replace('sp_nfc', 'sp_nfc4').replace('sp_nfkc', 'sp_nfkc4')) for t, r in STUBSETS['pipe']]
 STUBSETS['pipe12'] = [(t, r.replace('sp_nfc', 'sp_nfc12').replace('sp_nfkc', 'sp_nfkc12')) for t, r in STUBSETS['pipe']]
@@ -75,7 +79,21 @@ STUBSETS['stab2'] = [('precis_core::profile::stabilize', '$P::stubs::st_stabiliz
 STUBSETS['stab1'] = [('precis_core::profile::stabilize', '$P::stubs::st_stabilize1')]
 STUBSETS['pipe_bidi'] = [('crate::bidi::bidi_class_cp', '$P::stubs::sp_bidi_class_cp')]
 
+STUBSETS['predo'] = [('precis_core::common::' + a, '$P::stubs::' + b) for a, b in [
+    ('get_exception_val', 'so_exception'), ('get_backward_compatible_val', 'so_backward'), ('is_unassigned', 'so_unassigned'),
+    ('is_ascii7', 'so_ascii7'), ('is_join_control', 'so_join_control'), ('is_old_hangul_jamo', 'so_old_hangul_jamo'),
+    ('is_precis_ignorable_property', 'so_ignorable'), ('is_control', 'so_control'), ('has_compat', 'so_has_compat'),
+    ('is_letter_digit', 'so_letter_digit'), ('is_other_letter_digit', 'so_other_letter_digit'), ('is_space', 'so_space'),
+    ('is_symbol', 'so_symbol'), ('is_punctuation', 'so_punctuation')]]
+
+STUBSETS['rulespec'] = [('precis_core::context::get_context_rule', '$P::stubs::sr_get_rule_spec')]
+
 STUB_DOC = {
+    'rulespec': 'S-RULESPEC: context::get_context_rule keeps the real registry shape but returns, for each rule, its RFC 5892 specification '
+                'evaluated on the label\'s character array (rule == specification is decided by C03); ZWNJ excluded from these labels',
+    'count': 'S-COUNT: <Chars as Iterator>::count replaced by its defining loop over next()',
+    'predo': 'S-PREDO: each table predicate of precis_core::common = the oracle predicate of the code point (discharged for every u32 by '
+             'the c14_pred_* harnesses); used so that entry-point/pairing counterexamples replay natively',
     'stab1': 'S-STAB1: profile::stabilize replaced by one application of the rule function (Nickname no-drift harness only)',
     'stab2': 'S-STAB2: profile::stabilize replaced by two plain applications of the rule function (quick Nickname harnesses only; stabilize itself is C13, the full loop on real code is in the thorough tier)',
     'pipe4': 'S-PIPE with normalizer capacity 4 (strings of at most 1 input character); see S-PIPE',
@@ -235,26 +253,32 @@ HARNESSES = [
       bound='strings of 0..=5 characters, every character any Unicode scalar value'),
 
     # ---------------------------------------------------------------- C10
-    H('C10', 'c10_case_exact_n1', '$P::c10::case_exact::<1, 4, 3, _>', unwind=4, stubs=('str',), timeout=900,
-      unwindset=(('16binary_search_by', 13), ('17case_mapping_rule', 2), ('10next_match', 2), ('8try_fold', 4), ('18try_from_fn_erased', 4)),
+    H('C10', 'c10_case_exact_n1', '$P::c10::case_exact::<1, 4, 3, _>', unwind=4, stubs=('str',), timeout=900, mem_gb=22,
+      unwindset=(('16binary_search_by', 13), ('17case_mapping_rule', 2), ('10next_match', 2), ('8try_fold', 5), ('18try_from_fn_erased', 5)),
       funcs=['common::case_mapping_rule (via UsernameCaseMapped::case_mapping_rule)', 'common::has_lowercase_mapping', 'char::is_lowercase',
              'char::to_lowercase (core::unicode conversions tables)'],
       bound='exactly one character, every Unicode scalar value', expect_unsat_cover=('COVER: unchanged 3/4-byte character first, mapped character last',)),
     H('C10', 'c10_case_exact_n2', '$P::c10::case_exact::<2, 8, 6, _>', unwind=7, stubs=('str',), tiers=T, timeout=3400, mem_gb=24,
-      unwindset=(('16binary_search_by', 13), ('17case_mapping_rule', 3), ('10next_match', 3), ('8try_fold', 4), ('18try_from_fn_erased', 4)),
+      unwindset=(('16binary_search_by', 13), ('17case_mapping_rule', 3), ('10next_match', 3), ('8try_fold', 5), ('18try_from_fn_erased', 5)),
       funcs=['common::case_mapping_rule', 'common::has_lowercase_mapping', 'char::is_lowercase', 'char::to_lowercase'],
       bound='exactly two characters, each any Unicode scalar value'),
     H('C10', 'c10_model_valid', '$P::c10::model_valid', unwind=13, timeout=600,
       funcs=['char::to_lowercase', 'char::is_lowercase (real std tables, concrete witnesses)'],
       bound='every character of the witness alphabet SIGMA_CASE'),
-    H('C10', 'c10_case_sigma_n3', '$P::c10::case_sigma::<3, 12, 9, _>', unwind=11, stubs=('str', 'case'), timeout=900,
+    H('C10', 'c10_sigma_context', '$P::c10::sigma_context', unwind=16, timeout=900, mem_gb=16,
+      funcs=['common::case_mapping_rule', 'char::to_lowercase', 'String (real, concrete sizes)'],
+      bound='six concrete strings containing U+03A3 in word-final and non-final positions (constants: decided by constant folding)'),
+    H('C10', 'c10_case_sigma_n2', '$P::c10::case_sigma::<2, 8, 6, _>', unwind=8, stubs=('str', 'case'), timeout=900, mem_gb=20,
+      funcs=['common::case_mapping_rule', 'common::has_lowercase_mapping', 'char::is_lowercase (ASCII fast paths)', 'char::to_lowercase (iterator)'],
+      bound='strings of 0..=2 characters over SIGMA_CASE (small, fast variant of c10_case_sigma_n3)'),
+    H('C10', 'c10_case_sigma_n3', '$P::c10::case_sigma::<3, 12, 9, _>', unwind=11, stubs=('str', 'case'), timeout=900, mem_gb=26,
       funcs=['common::case_mapping_rule', 'common::has_lowercase_mapping', 'char::is_lowercase (ASCII fast paths)', 'char::to_lowercase (iterator)'],
       bound='strings of 0..=3 characters over SIGMA_CASE (23 witnesses: every combination of cased/uncased, lower/upper/title, '
             '1-4 byte, growing/shrinking/multi-character mappings)'),
     H('C10', 'c10_case_sigma_n4', '$P::c10::case_sigma::<4, 16, 12, _>', unwind=14, stubs=('str', 'case'), tiers=T, timeout=3000, mem_gb=20,
       funcs=['common::case_mapping_rule', 'common::has_lowercase_mapping', 'char::to_lowercase (iterator)'],
       bound='strings of 0..=4 characters over SIGMA_CASE'),
-    H('C10', 'c10_nick_one', '$P::c10::nick_one', unwind=4, unwindset=(('16binary_search_by', 13), ('17case_mapping_rule', 2), ('10next_match', 2), ('8try_fold', 4), ('18try_from_fn_erased', 4)),
+    H('C10', 'c10_nick_one', '$P::c10::nick_one', unwind=4, unwindset=(('16binary_search_by', 13), ('17case_mapping_rule', 2), ('10next_match', 2), ('8try_fold', 5), ('18try_from_fn_erased', 5)),
       funcs=['common::case_mapping_rule (via Nickname::case_mapping_rule)', 'char::to_lowercase'],
       bound='one character, every Unicode scalar value'),
     # ---------------------------------------------------------------- C11
@@ -386,6 +410,9 @@ HARNESSES = [
       funcs=['stringclasses::get_derived_property_value', 'IdentifierClass/FreeformClass::{get_value_from_codepoint, get_value_from_char}',
              'SpecificDerivedPropertyValue callbacks of both classes'],
       bound='any u32, ANY outcome of every table predicate (loop-free): complete'),
+    H('C14', 'c14_entry_points', '$P::c14::entry_points', unwind=2, stubs=('predo',), timeout=900,
+      funcs=['IdentifierClass/FreeformClass::{get_value_from_codepoint, get_value_from_char}', 'stringclasses::get_derived_property_value'],
+      bound='every u32 (complete); predicates = oracle functions of the real 6.3.0 data'),
     H('C14', 'c14_decision_order', '$P::c14::decision_order', unwind=2, stubs=('pred',), timeout=600,
       funcs=['stringclasses::get_derived_property_value'],
       bound='any u32, ANY outcome of every table predicate (loop-free): complete'),
@@ -464,6 +491,12 @@ HARNESSES = [
       funcs=['StringClass::allows (default method)', 'stringclasses::allowed_by_context_rule', 'context::get_context_rule', 'the nine context rules'],
       bound='labels of 0..=4 characters, every character any Unicode scalar value; derived property values, rule registry and '
             'rule outcomes = ANY functions (user-supplied class)'),
+    H('C02', 'c02_any_class_n2', '$P::c02::any_class::<2, 8, _>', unwind=5, stubs=('rule', 'adv', 'chars', 'count'), timeout=900, mem_gb=12,
+      funcs=['StringClass::allows (default method)', 'stringclasses::allowed_by_context_rule'],
+      bound='labels of 0..=2 characters (small, fast variant of c02_any_class_n4)'),
+    H('C02', 'c02_rulespec_n3', '$P::c02::any_class_rulespec::<3, 12, _>', unwind=9, stubs=('rulespec', 'adv', 'chars', 'count'), timeout=1500, mem_gb=36,
+      funcs=['StringClass::allows (default method)', 'stringclasses::allowed_by_context_rule', 'context::get_context_rule (registry shape)'],
+      bound='labels of 0..=3 characters (no U+200C), every character any other Unicode scalar value; derived property values = ANY function of the characters; rules = their specifications'),
     H('C02', 'c02_std_class_n2', '$P::c02::std_class::<2, 8, _>', unwind=5, stubs=('ctx', 'dpv'), tiers=T, timeout=3400, mem_gb=24,
       funcs=['IdentifierClass::allows', 'FreeformClass::allows', 'stringclasses::allowed_by_context_rule', 'context::get_context_rule'],
       bound='labels of 0..=2 characters, every character any Unicode scalar value; both standard classes, real registry and rules'),
@@ -548,15 +581,15 @@ HARNESSES = [
       funcs=['OpaqueString::compare', 'OpaqueString::enforce'], bound='one operand any string of 0..=1 characters over SIGMA_PIPE, first operand "a"'),
     H('C07', 'c07_const_opaque_k2', '$P::pipe::compare_const_freeform::<1, 4, 4, false, 2, true, _>', unwind=5, stubs=('str', 'pipe4'), unwindset=pipe_us(1), timeout=1500, mem_gb=13,
       funcs=['OpaqueString::compare', 'OpaqueString::enforce'], bound='one operand any string of 0..=1 characters over SIGMA_PIPE, first operand U+1100 (rejected: BadCodepoint)'),
-    H('C07', 'c07_const_nickname_k0', '$P::pipe::compare_const_freeform::<1, 4, 4, true, 0, false, _>', unwind=5, stubs=('str', 'pipe4', 'stab2'), unwindset=pipe_us(1), timeout=1500, mem_gb=26,
+    H('C07', 'c07_const_nickname_k0', '$P::pipe::compare_const_freeform::<1, 4, 4, true, 0, false, _>', unwind=5, stubs=('str', 'pipe4', 'stab2'), unwindset=pipe_us(1), tiers=T, timeout=1500, mem_gb=26,
       funcs=['Nickname::compare', 'Nickname::apply_compare_rules (two applications, S-STAB2)'], bound='one operand any string of 0..=1 characters over SIGMA_PIPE, second operand "" (rejected: Invalid)'),
-    H('C07', 'c07_const_nickname_k1', '$P::pipe::compare_const_freeform::<1, 4, 4, true, 1, true, _>', unwind=5, stubs=('str', 'pipe4', 'stab2'), unwindset=pipe_us(1), timeout=1500, mem_gb=26,
+    H('C07', 'c07_const_nickname_k1', '$P::pipe::compare_const_freeform::<1, 4, 4, true, 1, true, _>', unwind=5, stubs=('str', 'pipe4', 'stab2'), unwindset=pipe_us(1), tiers=T, timeout=1500, mem_gb=26,
       funcs=['Nickname::compare', 'Nickname::apply_compare_rules (two applications, S-STAB2)'], bound='one operand any string of 0..=1 characters over SIGMA_PIPE, first operand "a"'),
     H('C07', 'c07_const_nickname_k2', '$P::pipe::compare_const_freeform::<1, 4, 4, true, 2, true, _>', unwind=5, stubs=('str', 'pipe4', 'stab2'), unwindset=pipe_us(1), timeout=1500, mem_gb=13,
       funcs=['Nickname::compare', 'Nickname::apply_compare_rules (two applications, S-STAB2)'], bound='one operand any string of 0..=1 characters over SIGMA_PIPE, first operand U+1100 (rejected: BadCodepoint)'),
-    H('C07', 'c07_const_mapped_k0', '$P::pipe_user::compare_const_username::<1, 4, 4, true, 0, false, _>', crate='profiles', unwind=5, stubs=('str', 'pipe4', 'pipe_bidi'), unwindset=pipe_us(1), timeout=1500, mem_gb=26,
+    H('C07', 'c07_const_mapped_k0', '$P::pipe_user::compare_const_username::<1, 4, 4, true, 0, false, _>', crate='profiles', unwind=5, stubs=('str', 'pipe4', 'pipe_bidi'), unwindset=pipe_us(1), tiers=T, timeout=1500, mem_gb=26,
       funcs=['UsernameCaseMapped::compare', 'enforce'], bound='one operand any string of 0..=1 characters over SIGMA_PIPE, second operand "" (rejected: Invalid)'),
-    H('C07', 'c07_const_mapped_k1', '$P::pipe_user::compare_const_username::<1, 4, 4, true, 1, true, _>', crate='profiles', unwind=5, stubs=('str', 'pipe4', 'pipe_bidi'), unwindset=pipe_us(1), timeout=1500, mem_gb=26,
+    H('C07', 'c07_const_mapped_k1', '$P::pipe_user::compare_const_username::<1, 4, 4, true, 1, true, _>', crate='profiles', unwind=5, stubs=('str', 'pipe4', 'pipe_bidi'), unwindset=pipe_us(1), tiers=T, timeout=1500, mem_gb=26,
       funcs=['UsernameCaseMapped::compare', 'enforce'], bound='one operand any string of 0..=1 characters over SIGMA_PIPE, first operand "a"'),
     H('C07', 'c07_const_mapped_k2', '$P::pipe_user::compare_const_username::<1, 4, 4, true, 2, true, _>', crate='profiles', unwind=5, stubs=('str', 'pipe4', 'pipe_bidi'), unwindset=pipe_us(1), timeout=1500, mem_gb=13,
       funcs=['UsernameCaseMapped::compare', 'enforce'], bound='one operand any string of 0..=1 characters over SIGMA_PIPE, first operand U+0020 (rejected: BadCodepoint)'),
@@ -606,7 +639,7 @@ HARNESSES = [
       funcs=['OpaqueString::enforce'], bound='canonical forms (per the specification, at most 2 characters) of all strings of 0..=1 characters over SIGMA_PIPE'),
     H('C08', 'c08_no_drift_nickname_n1', '$P::pipe::no_drift_freeform::<1, 8, 8, true, _>', unwind=10, stubs=('str', 'pipe', 'stab1'), unwindset=pipe_us(2), timeout=1500, mem_gb=26,
       funcs=['Nickname::enforce'], bound='canonical forms (per the specification, at most 2 characters) of all strings of 0..=1 characters over SIGMA_PIPE'),
-    H('C08', 'c08_no_drift_mapped_n1', '$P::pipe_user::no_drift_username::<1, 8, 8, true, _>', crate='profiles', unwind=10, stubs=('str', 'pipe', 'pipe_bidi'), unwindset=pipe_us(2), timeout=1500, mem_gb=42,
+    H('C08', 'c08_no_drift_mapped_n1', '$P::pipe_user::no_drift_username::<1, 8, 8, true, _>', crate='profiles', unwind=10, stubs=('str', 'pipe', 'pipe_bidi'), unwindset=pipe_us(2), tiers=T, timeout=1500, mem_gb=42,
       funcs=['UsernameCaseMapped::enforce'], bound='canonical forms (per the specification) of all strings of 0..=1 characters over SIGMA_PIPE'),
     H('C08', 'c08_no_drift_preserved_n1', '$P::pipe_user::no_drift_username::<1, 8, 8, false, _>', crate='profiles', unwind=10, stubs=('str', 'pipe', 'pipe_bidi'), unwindset=pipe_us(2), timeout=1500, mem_gb=26,
       funcs=['UsernameCasePreserved::enforce'], bound='canonical forms (per the specification) of all strings of 0..=1 characters over SIGMA_PIPE'),
@@ -626,11 +659,11 @@ HARNESSES = [
       funcs=['Nickname: static prepare'], bound='strings of 0..=1 characters over SIGMA_PIPE'),
     H('C16', 'c16_form_nickname_f1', '$P::pipe::api_form_freeform::<1, 4, 4, true, 1, _>', unwind=5, stubs=('str', 'pipe4', 'once', 'stab2'), unwindset=pipe_us(1), timeout=1500, mem_gb=17,
       funcs=['Nickname: static enforce'], bound='strings of 0..=1 characters over SIGMA_PIPE'),
-    H('C16', 'c16_form_nickname_f2', '$P::pipe::api_form_freeform::<1, 4, 4, true, 2, _>', unwind=5, stubs=('str', 'pipe4', 'once', 'stab2'), unwindset=pipe_us(1), timeout=1500, mem_gb=17,
+    H('C16', 'c16_form_nickname_f2', '$P::pipe::api_form_freeform::<1, 4, 4, true, 2, _>', unwind=5, stubs=('str', 'pipe4', 'once', 'stab2'), unwindset=pipe_us(1), tiers=T, timeout=1500, mem_gb=17,
       funcs=['Nickname: static compare(x, "a")'], bound='strings of 0..=1 characters over SIGMA_PIPE'),
     H('C16', 'c16_form_nickname_f3', '$P::pipe::api_form_freeform::<1, 4, 4, true, 3, _>', unwind=5, stubs=('str', 'pipe4', 'once', 'stab2'), unwindset=pipe_us(1), tiers=T, timeout=1500, mem_gb=17,
       funcs=['Nickname: enforce(String)'], bound='strings of 0..=1 characters over SIGMA_PIPE'),
-    H('C16', 'c16_form_nickname_f4', '$P::pipe::api_form_freeform::<1, 4, 4, true, 4, _>', unwind=5, stubs=('str', 'pipe4', 'once', 'stab2'), unwindset=pipe_us(1), timeout=1500, mem_gb=17,
+    H('C16', 'c16_form_nickname_f4', '$P::pipe::api_form_freeform::<1, 4, 4, true, 4, _>', unwind=5, stubs=('str', 'pipe4', 'once', 'stab2'), unwindset=pipe_us(1), tiers=T, timeout=1500, mem_gb=17,
       funcs=['Nickname: enforce(Cow)'], bound='strings of 0..=1 characters over SIGMA_PIPE'),
     H('C16', 'c16_form_nickname_f5', '$P::pipe::api_form_freeform::<1, 4, 4, true, 5, _>', unwind=5, stubs=('str', 'pipe4', 'once', 'stab2'), unwindset=pipe_us(1), tiers=T, timeout=1500, mem_gb=17,
       funcs=['Nickname: enforce on an instance that already served another call'], bound='strings of 0..=1 characters over SIGMA_PIPE'),
@@ -655,7 +688,7 @@ HARNESSES = [
     H('C16', 'c16_form_preserved_f4', '$P::pipe_user::api_form_username::<1, 4, 4, false, 4, _>', crate='profiles', unwind=5, stubs=('str', 'pipe4', 'pipe_bidi', 'once'), unwindset=pipe_us(1), tiers=T, timeout=1500, mem_gb=17,
       funcs=['UsernameCasePreserved: enforce(Cow)'], bound='strings of 0..=1 characters over SIGMA_PIPE'),
     # ---------------------------------------------------------------- C08 (i)
-    H('C08', 'c08_casemap_targets', '$P::c08::casemap_targets', unwind=5, unwindset=(('16binary_search_by', 13), ('8try_fold', 4), ('18try_from_fn_erased', 4)), timeout=1500, mem_gb=16,
+    H('C08', 'c08_casemap_targets', '$P::c08::casemap_targets', unwind=5, unwindset=(('16binary_search_by', 13), ('8try_fold', 5), ('18try_from_fn_erased', 5)), timeout=1500, mem_gb=16,
       funcs=['char::to_lowercase (real std tables: the mapping applied after validation by UsernameCaseMapped::enforce and the Nickname comparison rules)'],
       bound='every Unicode scalar value (complete); derived properties from the 6.3.0 oracle (C14)'),
 ]
@@ -681,8 +714,9 @@ HARNESSES.append(H('C01', 'c01_ctx_rules_n3', '$P::c01::ctx_rules::<3, 12, _>', 
                    bound='labels of 0..=3 characters, every character any Unicode scalar value; offset ANY usize; any rule'))
 for _src, _t in [('c14_pairing', Q), ('c14_pred_is_space', Q), ('c14_pred_is_unassigned', Q), ('c02_any_class_n4', Q),
                  ('c12_nick_map_n3', Q), ('c12_opaque_map_n3', Q), ('c11_width_map_n3', Q), ('c10_case_sigma_n3', Q),
-                 ('c13_stabilize_any_fn', Q), ('c05_opaque_enforce_n1', Q), ('c06_nickname_two_rounds_n1', Q), ('c04_username_mapped_enforce_n1', Q),
-                 ('c07_const_nickname_k1', Q), ('c09_bidi_rule_n4', Q),
+                 ('c13_stabilize_any_fn', Q), ('c05_opaque_enforce_n1', Q), ('c06_nickname_prepare_n1', Q), ('c04_username_preserved_enforce_n1', Q),
+                 ('c07_const_nickname_k2', Q), ('c07_const_opaque_k1', Q), ('c09_bidi_rule_n4', Q),
+                 ('c06_nickname_two_rounds_n1', T), ('c04_username_mapped_enforce_n1', T), ('c07_const_nickname_k1', T),
                  ('c12_nick_map_n5', T), ('c12_opaque_map_n5', T), ('c02_any_class_n6', T), ('c06_nickname_enforce_n2', T), ('c04_username_mapped_enforce_n2', T)]:
     HARNESSES.append(_c01(_src, _t))
 
